@@ -115,6 +115,11 @@ def line_spans(an):
     return spans
 
 
+def line_first(an):
+    """call index of the LF of a consumed line -> call index at which the line's first byte was read"""
+    return {li: first for (_t, first, li) in an.consumed_lines()}
+
+
 def cmd_events_in(an, a, b):
     ev = []
     for li in range(a, b):
@@ -142,12 +147,15 @@ def oracle_C02(an, check_c09=False):
         return None
     v = []
     ftl = flags_timeline(an)
+    lfirst = line_first(an)
     for (t, a, b) in line_spans(an):
         if a >= len(ftl):
             continue
         fl = ftl[a]
-        # flags must not change while the line is in progress (C09: changes are made between lines)
-        if any(an.op_of(li).startswith("flag") for li in range(max(0, a - 400), b)):
+        # flags must not change while the line is in progress (C09: changes are made between lines): from the call that read
+        # the line's first byte to the call that reads the next line's first byte
+        lo = lfirst.get(a)
+        if any(an.op_of(li).startswith("flag") for li in range(a if lo is None else lo, b)):
             # flags changed near this line's life time: only the flag-independent part is judged —
             # whatever was enabled when, a command whose handler runs must be named by the line:
             # the name typed (the longest run of name characters behind AT) is a prefix of its name,
@@ -945,6 +953,20 @@ def oracle_C13(an):
                     if inprog is None or e[2] != inprog[0] or e[1] != ("r" if inprog[1] == 1 else "t"):
                         v.append("unsolicited handler %s of command %d ran at call %s but the event in progress is %r" % (e[1], e[2], l.op, inprog))
                         return v
+        # an accepted event that can be started is started: after the call that takes it out of the queue the unsolicited
+        # machine is working on it (a READ event of a command with something readable or a read handler, a TEST event of a
+        # command with variables or whose description fits, the name fitting the buffer - whatever `only_test` says: that flag restricts
+        # what the host may request, not what the application may announce)
+        if an.is_svc(li) and not lockfail and popped is not None and 0 <= popped[0] < len(an.scn.cmds) and not an.tr.abort:
+            pc = an.scn.cmds[popped[0]]
+            ucap_ = an.scn.uns if an.scn.uns >= 0 else an.scn.buf // 2
+            room = len(pc.name) + 1 + ((2 + len(pc.desc)) if pc.desc is not None else 0)
+            startable = len(pc.name) + 2 < ucap_ and (
+                (popped[1] == 1 and (vars_accessible(pc, 1) or "r" in pc.h)) or
+                (popped[1] == 3 and (bool(pc.vars) or room + 1 < ucap_)))
+            if startable and l.q[4] != popped[0]:
+                v.append("event (command %d, type %d) was taken out of the queue at call %s and dropped without being processed" % (popped[0], popped[1], l.op))
+                return v
         # observers after the call
         pu = l.q[4]
         if pu != -1:
